@@ -488,7 +488,9 @@ class Graph(object):
 
             # Solve for the updates
             solve_start_time = time.time()
-            dx = spsolve(self._hessian, -self._gradient)  # pylint: disable=invalid-unary-operand-type
+            # `spsolve` wants CSC (or CSR) format; handing it the LIL matrix makes it convert the matrix itself and
+            # issue a `SparseEfficiencyWarning`, which is an exception when the host program turns warnings into errors
+            dx = spsolve(self._hessian.tocsc(), -self._gradient)  # pylint: disable=invalid-unary-operand-type
             ret.iteration_results[-1].solve_duration_s = time.time() - solve_start_time
 
             # Apply the updates
